@@ -575,6 +575,102 @@ fn run_case1(case: &Value, out: &mut dyn Write, forced: Option<(i32, i32, f64)>)
     Some((p, used_pm, s_case))
 }
 
+/// bytes of a token-level file (spec/Faults.tla): fields joined by ",", lines by newline;
+/// the atom "<FF>" is the raw byte 0xFF (invalid UTF-8)
+fn fault_bytes(lines: &Value) -> Vec<u8> {
+    let mut out: Vec<u8> = vec![];
+    for ln in lines.as_array().unwrap_or(&vec![]) {
+        let mut first = true;
+        for f in ln.as_array().unwrap_or(&vec![]) {
+            if !first {
+                out.push(b',');
+            }
+            first = false;
+            let t = f.as_str().unwrap_or("");
+            let mut rest = t;
+            while let Some(i) = rest.find("<FF>") {
+                out.extend_from_slice(rest[..i].as_bytes());
+                out.push(0xFF);
+                rest = &rest[i + 4..];
+            }
+            out.extend_from_slice(rest.as_bytes());
+        }
+        out.push(b'\n');
+    }
+    out
+}
+
+const FAULT_BUILDING: &str = "0, CONSUMO, ILU, ELECTRICIDAD, 4, 6\n0, PRODUCCION, EL_INSITU, 9, 1\n1, CONSUMO, CAL, GASNATURAL, 5, 5\n0, CONSUMO, NEPB, ELECTRICIDAD, 1, 1\n3, PRODUCCION, EL_COGEN, 2, 2\n3, CONSUMO, COGEN, GASNATURAL, 7, 7";
+
+/// one library call under catch_unwind, as a stage record
+fn stage<T, F: FnOnce() -> Result<T, cteepbd::error::EpbdError>>(stages: &mut Vec<Value>, name: &str, f: F) -> Option<T> {
+    match guarded(f) {
+        Outcome::Ok(v) => {
+            stages.push(json!({"s": name, "o": "Ok"}));
+            Some(v)
+        }
+        Outcome::Err(k, m) => {
+            stages.push(json!({"s": name, "o": k, "msg": m.chars().take(60).collect::<String>()}));
+            None
+        }
+        Outcome::Panic(m) => {
+            stages.push(json!({"s": name, "o": "Panic", "msg": m.chars().take(120).collect::<String>()}));
+            None
+        }
+    }
+}
+
+fn infallible<T, F: FnOnce() -> T>(stages: &mut Vec<Value>, name: &str, f: F) -> Option<T> {
+    stage(stages, name, || Ok(f()))
+}
+
+/// every public entry point of the library on one (possibly corrupted) text
+fn fault_case(case: &Value, out: &mut dyn Write) {
+    use cteepbd::{AsCtePlain, AsCteXml};
+    let bytes = fault_bytes(&case["lines"]);
+    let text = String::from_utf8_lossy(&bytes).to_string();
+    let kind = case["kind"].as_str().unwrap_or("comps");
+    let mut stages: Vec<Value> = vec![];
+    let (comps, fac) = if kind == "comps" {
+        let c = stage(&mut stages, "parse", || text.parse::<Components>());
+        let f = stage(&mut stages, "factors", || {
+            cte::wfactors_from_loc("PENINSULA", &cte::CTE_LOCWF_RITE2014, UserWF { red1: None, red2: None }, cte::CTE_USERWF)
+        });
+        (c, f)
+    } else {
+        let f = stage(&mut stages, "prepare", || {
+            cte::wfactors_from_str(&text, UserWF { red1: None, red2: None }, cte::CTE_USERWF)
+        });
+        let _ = stage(&mut stages, "parse-factors", || text.parse::<Factors>());
+        let c = stage(&mut stages, "parse", || FAULT_BUILDING.parse::<Components>());
+        (c, f)
+    };
+    if let (Some(c), Some(f)) = (comps, fac) {
+        let _ = stage(&mut stages, "renormalize", || c.clone().normalize());
+        let _ = infallible(&mut stages, "display", || (c.to_string(), f.to_string()));
+        let fs = infallible(&mut stages, "strip", || f.clone().strip(&c));
+        for (name, fset) in [("full", Some(f.clone())), ("stripped", fs)] {
+            if let Some(fset) = fset {
+                for lm in [false, true] {
+                    let st = format!("eval-{}-lm{}", name, lm as i32);
+                    if let Some(ep) = stage(&mut stages, &st, || energy_performance(&c, &fset, 0.5, 1.0, lm)) {
+                        if let Some(ep) = infallible(&mut stages, "acs", || cte::incorpora_demanda_renovable_acs_nrb(ep)) {
+                            let _ = infallible(&mut stages, "plain", || ep.to_plain());
+                            let _ = infallible(&mut stages, "xml", || ep.to_xml());
+                            let _ = stage(&mut stages, "json", || {
+                                serde_json::to_string(&ep).map_err(|e| cteepbd::error::EpbdError::WrongInput(e.to_string()))
+                            });
+                        }
+                    }
+                }
+            }
+        }
+    }
+    let ev = json!({"ev": "Fault", "case": case["case"], "tag": "lib", "kind": kind, "base": case["base"], "depth": case["depth"],
+                    "lines": case["lines"], "stages": stages});
+    writeln!(out, "{}", ev).ok();
+}
+
 fn main() {
     // learn the library's generated comments before hooks are recording
     let _ = flat::generated_comments();
@@ -612,6 +708,24 @@ fn main() {
                 }
                 match serde_json::from_str::<Value>(&line) {
                     Ok(case) => run_case(&case, &mut out),
+                    Err(e) => {
+                        eprintln!("harness: bad case line: {}", e);
+                        std::process::exit(2);
+                    }
+                }
+            }
+        }
+        "fault" => {
+            for line in stdin.lock().lines() {
+                let line = match line {
+                    Ok(l) => l,
+                    Err(_) => break,
+                };
+                if line.trim().is_empty() {
+                    continue;
+                }
+                match serde_json::from_str::<Value>(&line) {
+                    Ok(case) => fault_case(&case, &mut out),
                     Err(e) => {
                         eprintln!("harness: bad case line: {}", e);
                         std::process::exit(2);
